@@ -224,7 +224,7 @@ func deepEqualValue(a, b value.Value) bool {
 }
 
 func c02(c *wk.Ctx) {
-	c.Note("rule", "streams: ctor = dynamic values built only from the public constructors (all scalar kinds, string, raw, void, lists of values nested to depth 5 / 8); opaque = value.Opaque(sig, data) for composite signatures drawn from the grammar (lists, maps, tuples, structs, double, object) whose members include m at any depth, data = reference encoding of a random value; big = long strings / raws / lists at the size caps. Oracle: Write == reference encoding; NewValue(enc||trailer) succeeds, consumes exactly len(enc), same signature, re-encodes to the same bytes, and the same holds when enc is delivered in pieces of 1-9 bytes with io.EOF reported together with the last piece; constructor values compare equal. Distinct non-trivial = distinct (stream, type shape, encoded length class).")
+	c.Note("rule", "streams: ctor = dynamic values built only from the public constructors (all scalar kinds, string, raw, void, lists of values nested to depth 5 / 8); opaque = value.Opaque(sig, data) for composite signatures drawn from the grammar (lists, maps, tuples, structs, double, object) whose members include m at any depth (one case in sixteen: a nested value whose own signature is 150-2000 bytes long), data = reference encoding of a random value; big = long strings / raws / lists at the size caps. Oracle: Write == reference encoding; NewValue(enc||trailer) succeeds, consumes exactly len(enc), same signature, re-encodes to the same bytes, and the same holds when enc is delivered in pieces of 1-9 bytes with io.EOF reported together with the last piece; constructor values compare equal. Distinct non-trivial = distinct (stream, type shape, encoded length class).")
 	depth := c.Pick(5, 8)
 	c.Cases("ctor", c.Pick(30000, 600000), func(i int, rng *rand.Rand) {
 		b := 60
@@ -234,6 +234,29 @@ func c02(c *wk.Ctx) {
 	})
 	c.Cases("opaque", c.Pick(30000, 600000), func(i int, rng *rand.Rand) {
 		d := genOpaqueDyn(rng, c.Pick(4, 6), i%10 == 0)
+		if i%16 == 15 {
+			// a dynamic value whose own signature is LONG (a structure with 6-60 named members: 150 .. 2000
+			// bytes of signature) nested inside an opaque tuple / map / list of tuples
+			n := 6 + rng.Intn(55)
+			names := make([]string, n)
+			mem := make([]*rc.Type, n)
+			vals := make(rc.Tup, n)
+			for k := range names {
+				names[k] = fmt.Sprintf("field_number_%02d_of_the_record", k)
+				mem[k] = rc.T(rc.Int32)
+				vals[k] = int32(rng.Int31())
+			}
+			big := rc.DynV{T: rc.StructOf("Record_with_many_members", names, mem...), V: vals}
+			switch rng.Intn(3) {
+			case 0:
+				d = rc.DynV{T: rc.StructOf("Holder", []string{"content"}, rc.T(rc.Dyn)), V: rc.Tup{big}}
+			case 1:
+				d = rc.DynV{T: rc.MapOf(rc.T(rc.String), rc.T(rc.Dyn)), V: []rc.KV{{K: "k", V: big}}}
+			default:
+				d = rc.DynV{T: rc.ListOf(rc.TupleOf(rc.T(rc.String), rc.T(rc.Dyn))), V: []interface{}{rc.Tup{"a", big}, rc.Tup{"b", big}}}
+			}
+			c.Count("nested_values_with_signatures_over_150_bytes", 1)
+		}
 		checkDyn(c, "opaque", i, d, rng, false)
 		c.Nontrivial(wk.Hash64("opaque", d.T.Shape()))
 		c.Count("class_"+dynClass(d.T), 1)
